@@ -64,6 +64,12 @@ def exprKeyFields : List String := ["inputs", "output", "size_dict", "optimize",
 /-- … and the *path* cache key (`hash_contraction(inputs, output, size_dict, optimize)`, :284) -/
 def pathKeyFields : List String := ["inputs", "output", "size_dict", "optimize"]
 
+/-- what must agree before an *object* built for one request may be handed to another one:
+    the key fields and, for functions with folded constants
+    (`_array_contract_expression_with_constants`, interface.py:500-567), the positions **and
+    values** of the constant arrays, which the returned function captures by reference -/
+def exprShareFields : List String := exprKeyFields ++ ["constants"]
+
 /-- may a cached value built for `q₁` be handed to `q₂`?  (decidable; run on observed sharing) -/
 def shareOK {V} [DecidableEq V] (fields : List String) (q₁ q₂ : Query V) : Bool :=
   keyTuple fields q₁ == keyTuple fields q₂
